@@ -40,11 +40,16 @@ fn main() {
                 }
             }
         }
+        for d in [4usize, 6] {
+            if doc.part == format!("vsock-large-buffers:model:depth={}", d) {
+                std::process::exit(vlab::replay::replay_dfs(&doc, &move || c17::run_large(TKind::Model, d)));
+            }
+        }
         eprintln!("unknown part {}", doc.part);
         std::process::exit(2);
     }
     let mut c = Check::new("C17", args.tier, "model_checking");
-    c.rule = "DFS over every interleaving (bounded depth) of send(0,1,2,cap), recv(1,3,cap), update_credit, poll and peer packets (RW of 1,3,cap bytes only within the advertised credit, CREDIT_UPDATE after consuming / shrinking buf_alloc to 1 / growing to 8, CREDIT_REQUEST) on one established connection, per-connection capacities 1,3,4, with both byte counters preset (hook) to 0, 2^32-2/-3, 2^32-1 and 2^31 boundaries so that they wrap inside the window; reference peer tracks both credit windows and both byte streams. Ring-buffer parts: reduced alphabet (peer RW of 1,2,cap bytes polled at once, recv of 1,2,cap, update_credit) to greater depth, reaching every (start, used) state of the receive ring with wrapping reads and writes. distinct = distinct observation signatures".into();
+    c.rule = "DFS over every interleaving (bounded depth) of send(0,1,2,cap), recv(1,3,cap), update_credit, poll and peer packets (RW of 1,3,cap bytes only within the advertised credit, CREDIT_UPDATE after consuming / shrinking buf_alloc to 1 / growing to 8, CREDIT_REQUEST) on one established connection, per-connection capacities 1,3,4, with both byte counters preset (hook) to 0, 2^32-2/-3, 2^32-1 and 2^31 boundaries so that they wrap inside the window; reference peer tracks both credit windows and both byte streams. Ring-buffer parts: reduced alphabet (peer RW of 1,2,cap bytes polled at once, recv of 1,2,cap, update_credit) to greater depth, reaching every (start, used) state of the receive ring with wrapping reads and writes. Large-buffer part: the driver instantiated with 2048-byte receive buffers and a 2048-byte connection buffer, peer packets of 468, 469 and 2004 bytes, sends of 469 and 2048 bytes. The alphabet includes the peer's shutdown (buffered data stays readable, the closing reset carries the final counters). distinct = distinct observation signatures".into();
     c.assumptions = vec!["the peer honours the credit the driver advertised (a dishonest peer is C07's subject)".into()];
     for (t, d, cap) in parts(args.tier) {
         let part = format!("vsock-credit:{}:depth={}:cap={}", t.name(), d, cap);
@@ -58,6 +63,15 @@ fn main() {
         let mut cfg = DfsConfig::new(&part, 0);
         cfg.wall_cap = Duration::from_secs(if args.tier == Tier::Quick { 30 } else { 1800 });
         let st = dfs::explore(&cfg, &move || c17::run_mode(TKind::Model, d, cap, true));
+        c.add_dfs(&part, &st);
+    }
+    // Large receive buffers (2048 bytes) and packets of several hundred bytes.
+    {
+        let d = if args.tier == Tier::Quick { 4 } else { 6 };
+        let part = format!("vsock-large-buffers:model:depth={}", d);
+        let mut cfg = DfsConfig::new(&part, 0);
+        cfg.wall_cap = Duration::from_secs(if args.tier == Tier::Quick { 30 } else { 1800 });
+        let st = dfs::explore(&cfg, &move || c17::run_large(TKind::Model, d));
         c.add_dfs(&part, &st);
     }
     c.finish();
